@@ -62,3 +62,17 @@ bool noabort_entry(draco::DecoderBuffer *b) {
 }
 
 }  // namespace verif_control
+
+// ---- WIDENSHIFT control (C17) ----------------------------------------------------------
+#include <cstdint>
+namespace verif_control {
+uint64_t c17_widenshift_bad(const uint8_t *bytes, int n) {
+  uint64_t value = 0;
+  int shift = 0;
+  for (int i = 0; i < n; ++i) {
+    value |= (bytes[i] & 0x7f) << shift;   // int shift, widened afterwards
+    shift += 7;
+  }
+  return value;
+}
+}  // namespace verif_control
